@@ -53,6 +53,7 @@ type Contract struct {
 	Line         int
 	Asserts      []Clause
 	Defines      []Clause // iface: definitional postconditions (assumed at calls, not checked on implementers)
+	Decreases    *Clause  // recursion measure
 	SplitExpr    *Clause  // case split: the function is verified once per value
 	SplitVals    []string
 	exhaustive   *Clause
@@ -209,9 +210,11 @@ func parseContractText(text, path, pkg string, cs *ContractSet) error {
 					curLoop.Invariants = append(curLoop.Invariants, cl)
 				}
 			case "decreases":
+				cc := cl
 				if curLoop != nil {
-					cc := cl
 					curLoop.Decreases = &cc
+				} else {
+					c.Decreases = &cc
 				}
 			case "inline":
 				c.Inline = true
